@@ -99,7 +99,7 @@ def impl(case):
     if case["ballot"] == "approval":
         same = all((pb.F(utils[v][j]) > 0) == (projs[j] in sats[v].ballot)
                    for v in range(len(sats)) for j in range(len(projs)))
-        if same and iters:
+        if same and iters and not case.get("init"):
             from pabutools.election import ApprovalBallot, ApprovalProfile
             from pabutools.analysis.priceability import validate_price_system
             pays = [{p: 0 for p in projs} for _ in sats]
@@ -132,9 +132,10 @@ def coq_case(case, o):
     voters = lst([pair(core.qlist(u), core.nat(m)) for u, m in zip(o["utils"], o["mults"])])
     iters = lst([pair(opt(sel, core.nat), core.qlist(b), opt(a, core.qlist)) for sel, b, a in o["iters"]])
     loss = opt(o["loss"], lambda L: lst([pair(core.nat(p), q(sb), q(tl)) for p, sb, tl in L]))
-    return "(mkCase %s %s %s %s %s %s %s %s %s %s %s %s %s %s)" % (
+    return "(mkCase %s %s %s %s %s %s %s %s %s %s %s %s %s %s %s)" % (
         core.qlist(case["costs"]), q(case["budget"]), voters, core.qlist(o["keys"]), natl(case["enum"]),
-        boolc(mesgen.resolved_binary(case)), opt(case.get("inc"), q), natl(o["mult_rec"]), iters,
+        boolc(mesgen.resolved_binary(case)), opt(case.get("inc"), q), natl(case.get("init", [])),
+        natl(o["mult_rec"]), iters,
         q(o["final_budget"]), natl(o["out"]), natl(o["out_plain"]), opt(o["valid"], boolc), loss)
 
 
@@ -142,11 +143,11 @@ def nontrivial(case, o):
     if not isinstance(o, dict) or "iters" not in o or len(o["iters"]) < 2:
         return None
     return [case["costs"], case["budget"], case["ballot"], case["ballots"], case["sat"], case["multi"],
-            case["tb"], case["binary"], case["inc"]]
+            case["tb"], case["binary"], case["inc"], case.get("init", [])]
 
 
 def stats(cases, obs):
-    keys = ["mixed", "tie", "lazy", "lazy_tie", "zero_cost", "unaffordable", "nonuniform_util", "mult2"]
+    keys = ["mixed", "tie", "lazy", "lazy_tie", "zero_cost", "unaffordable", "nonuniform_util", "mult2", "init"]
     d = {"n": 0, "by_ballot": {}, "by_sat": {}, "multi": 0, "iterated": 0, "iterated_inflated": 0,
          "recorded_rounds_hist": {}, "validator_called": 0, "share": {}}
     cnt = {k: 0 for k in keys}
@@ -172,7 +173,8 @@ def stats(cases, obs):
                   "zero_cost_supported_project": round(cnt["zero_cost"] / n, 3),
                   "unaffordable_project": round(cnt["unaffordable"] / n, 3),
                   "supporters_with_different_utilities": round(cnt["nonuniform_util"] / n, 3),
-                  "multiplicity_ge_2": round(cnt["mult2"] / n, 3)}
+                  "multiplicity_ge_2": round(cnt["mult2"] / n, 3),
+                  "nonempty_initial_allocation": round(cnt["init"] / n, 3)}
     return d
 
 
